@@ -14,18 +14,21 @@ IN_LAYOUT = [("is_out", 1), ("rx_valid", 1), ("rx_next", 1), ("rx_complete", 1),
 
 def mk(mps, buf, big):
     def build():
-        from amaranth import Elaboratable, Module, Signal
+        from amaranth import Elaboratable, Module, Mux, Signal
         from luna.gateware.usb.usb2.endpoints.isochronous_stream_out import USBIsochronousStreamOutEndpoint
 
         class Wrapper(Elaboratable):
-            """exposes the fields of the stream payload (a struct) as plain signals"""
+            """exposes the fields of the stream payload (a struct) as plain signals, masked by stream.valid"""
             def __init__(self):
                 self.ep = USBIsochronousStreamOutEndpoint(endpoint_number=EP, max_packet_size=mps, buffer_size=buf)
                 self.valid = Signal(); self.first = Signal(); self.last = Signal(); self.data = Signal(8)
             def elaborate(self, platform):
                 m = Module(); m.submodules.ep = ep = self.ep
-                m.d.comb += [self.valid.eq(ep.stream.valid), self.first.eq(ep.stream.p.first),
-                             self.last.eq(ep.stream.p.last), self.data.eq(ep.stream.p.data)]
+                # payload, first and last mean something only while valid is high: mask them, so that don't-care
+                # values (stale FIFO read data) never count as a difference
+                v = ep.stream.valid
+                m.d.comb += [self.valid.eq(v), self.first.eq(ep.stream.p.first & v),
+                             self.last.eq(ep.stream.p.last & v), self.data.eq(Mux(v, ep.stream.p.data, 0))]
                 return m
         w = Wrapper(); d = w.ep; i = d.interface; tk = i.tokenizer
         return w, [("is_out", tk.is_out), ("rx_valid", i.rx.valid), ("rx_next", i.rx.next),
@@ -40,8 +43,8 @@ def mk(mps, buf, big):
 # (max_packet_size, buffer_size).  max_packet_size = 1 cannot show a truncated packet, so the smallest lock-step
 # configuration of the quick tier is (2, 2): "exactly max_packet_size entries free" is its initial state.
 SMALL_QUICK = [(2, 2)]
-SMALL_THOROUGH = [(1, 1), (1, 2), (2, 2), (2, 3), (3, 3)]
-BIG_QUICK = [(2, 3), (4, 8), (8, 23), (64, 128)]
+SMALL_THOROUGH = [(1, 1), (1, 2), (2, 2), (2, 3)]
+BIG_QUICK = [(2, 3), (8, 23), (64, 128)]
 BIG_THOROUGH = [(2, 4), (3, 5), (4, 8), (4, 11), (8, 16), (8, 23), (64, 128), (64, 191), (200, 512), (512, 1024)]
 
 
@@ -193,7 +196,7 @@ def traces(target, rng, tier):
         for k in range(n // 3):
             out.append(Gen(rng, mps, buf, legal=False).run(rng.randint(2, 6)))
     else:
-        budget = 1500 if tier == "quick" else 20000
+        budget = 1000 if tier == "quick" else 8000
         total = 0
         k = 0
         while total < budget:
@@ -207,14 +210,14 @@ def traces(target, rng, tier):
 OTHER_EP = (EP + 1) % 16
 
 
-def alphabet(tier):
+def alphabet(tier, mps=2):
     """input words of the lock-step obligations: receive side {idle, idle + rx_complete, idle + rx_invalid, rx.valid,
     rx.valid + rx.next} (the strobes as USBDataPacketReceiver drives them: never while rx.valid is high, never both)
     x stream.ready x token fields {OUT token for EP, OUT token for another endpoint (+ non-OUT token for EP, thorough)}
     x payload bytes {0xA5 (+ 0x5A, thorough)}"""
     words = []
     toks = [(EP, 1), (OTHER_EP, 1)] if tier == "quick" else [(EP, 1), (OTHER_EP, 1), (EP, 0)]
-    pays = SMALL_PAYLOADS[:1] if tier == "quick" else SMALL_PAYLOADS
+    pays = SMALL_PAYLOADS if (tier != "quick" and mps == 1) else SMALL_PAYLOADS[:1]
     for (ep, is_out) in toks:
         for (v, n, c, i) in [(0, 0, 0, 0), (0, 0, 1, 0), (0, 0, 0, 1), (1, 0, 0, 0), (1, 1, 0, 0)]:
             for rdy in (0, 1):
@@ -225,13 +228,11 @@ def alphabet(tier):
 
 
 def obligations(targets, tier):
-    import os
-    DEV = os.environ.get("C16_DEV", "")
     obs = []
     for t in targets:
         mps, buf = t.params["mps"], t.params["buf"]
-        if not t.big and "nolock" not in DEV:
-            al = alphabet(tier)
+        if not t.big:
+            al = alphabet(tier, mps)
             obs.append(tie_explicit.rlock_alpha(
                 f"ob_{t.name}", t,
                 St="io_state", mstep=f"io_mstep {mps} {buf} {EP}", enc=f"io_enc {mps} {buf}", dec=f"io_dec {mps} {buf}",
@@ -241,14 +242,15 @@ def obligations(targets, tier):
                 describe=f"USBIsochronousStreamOutEndpoint(max_packet_size={mps}, buffer_size={buf}) == endpoint model "
                          f"(boundary detector + admission latch + FIFO) in lock step on all traces over {len(al)} input words "
                          f"(receive side idle / idle+rx_complete / idle+rx_invalid / rx.valid / rx.valid+rx.next, x stream.ready, "
-                         f"x token for this / another endpoint, payload 0xA5{'' if tier == 'quick' else '/0x5A'}) that keep the "
+                         f"x token for this / another endpoint{'' if tier == 'quick' else ' / non-OUT token'}, payload bytes "
+                         f"{'0xA5/0x5A' if (tier != 'quick' and mps == 1) else '0xA5'}) that keep the "
                          f"environment assumption"))
         obs.append(tie.corr(f"corr_{t.name}", t, mstep=f"io_mstep {mps} {buf} {EP}", m0=f"io_init {buf}",
                             norm="io_normN",
                             describe=f"endpoint model vs simulator at max_packet_size={mps}, buffer_size={buf}: packet scripts with "
                                      f"random sizes/gaps/CRC outcomes/addressing and consumer back-pressure (incl. buffer exactly "
                                      f"max_packet_size short of full), full-width payloads; stream compared while valid"))
-        if "nomon" not in DEV: obs.append(tie.cmon(f"spec_{t.name}", t, mon=f"(is_mon {mps} {buf} {EP})", m0="is_mon0",
+        obs.append(tie.cmon(f"spec_{t.name}", t, mon=f"(is_mon {mps} {buf} {EP})", m0="is_mon0",
                             describe=f"the packet-level SPECIFICATION machine (is_next/is_outf) run as an oracle over simulator "
                                      f"traces of the real module at max_packet_size={mps}, buffer_size={buf}: in every cycle that "
                                      f"keeps the environment assumption, stream.valid and (while valid) payload/first/last must "
@@ -257,10 +259,9 @@ def obligations(targets, tier):
 
 
 def tie_theorems(targets, tier):
-    import os
     s = ""
     for t in targets:
-        if t.big or "nolock" in os.environ.get("C16_DEV", ""): continue
+        if t.big: continue
         mps, buf = t.params["mps"], t.params["buf"]; ob = f"ob_{t.name}"
         s += f"""
 Theorem C16_{t.name} : forall tr,
@@ -278,8 +279,6 @@ Qed.
 
 
 def tie_theorem_names(targets, tier):
-    import os
-    if "nolock" in os.environ.get("C16_DEV", ""): return []
     return [f"C16_{t.name}" for t in targets if not t.big]
 
 
@@ -299,9 +298,10 @@ ASSUMPTIONS = [
     "least max_packet_size entries are free in the cycle in which its first byte reaches the buffer (one cycle after its second "
     "byte, or its end, was seen); free = buffer_size - undelivered entries - 1 if an entry was delivered in the previous cycle",
     "the output stream is compared while stream.valid is high (payload/first/last are don't-care otherwise)",
-    "lock-step tie configurations (max_packet_size, buffer_size): (1,2) (2,3) quick; (1,1) (1,2) (1,3) (2,2) (2,3) (2,4) thorough; "
-    "explicit input alphabet (see obligation_list); correspondence and specification-oracle runs additionally at (4,8) (8,23) "
-    "(64,128) (200,512) quick / up to (1024,2048) thorough, with full-width random payloads; endpoint_number = 1",
+    "lock-step tie configurations (max_packet_size, buffer_size): (2,2) quick -- the smallest configuration in which a packet can "
+    "be truncated; (1,1) (1,2) (2,2) (2,3) thorough; explicit input alphabets (see obligation_list; strobes as "
+    "USBDataPacketReceiver drives them: not while rx.valid is high, never both); correspondence and specification-oracle runs "
+    "additionally at (2,3) (8,23) (64,128) quick / up to (512,1024) thorough, with full-width random payloads; endpoint_number = 1",
     "DEFECT: the unchanged tree violates the property (findings/C16-truncated-packet.json, confirmed on Amaranth's simulator); "
     "the model and specification describe the repaired behaviour (findings/C16-truncated-packet.diff); ./check C16 exits 0 only "
     "with that patch applied",
